@@ -391,6 +391,15 @@ def check_sides(sidelog, F, prefix, out, extra_hyps=(), final_values=None):
             kind = "range"
         if kind == "bincount-range":
             continue
+        if kind == "floatrange":
+            key = (kind, what, loc.split(":")[0])
+            if key not in seen:
+                seen.add(key)
+                n += 1
+                out.append(Clause("%s.range@%s" % (prefix, loc), "refuted", "floatmodel",
+                                  "%s: leaves the float64 range for ordinary inputs (e.g. 64 factors of 1e-6 give 0, 80 factors of 1e4 give inf) "
+                                  "although the mathematical value is finite" % why, witness={"float_hazard": what, "at": loc}))
+            continue
         if kind == "intwidth":
             key = (kind, what, loc.split(":")[0])
             if key not in seen:
